@@ -1,5 +1,6 @@
 import Casket.Proofs.FCGI
 import Casket.Proofs.FCGIRoute
+import Casket.Proofs.FCGIShared
 import Casket.Generated.FCGI
 /-
 C13 — FastCGI requests and responses cross the wire intact.
@@ -240,8 +241,9 @@ example : splitPos false { path := [0x2f], ext := bytes ".php", split := bytes "
 /-! ### environment -/
 
 /-- For every request that `route` sends to rule `j` with script path `f`, the environment the
-model derives satisfies the environment verdict: every request header arrives as HTTP_*, every
-configured entry arrives, DOCUMENT_URI ++ PATH_INFO is the script path cut right after the first
+model derives satisfies the environment verdict: every request header arrives as HTTP_*, no other
+HTTP_* variable arrives (only HTTP_HOST, configured entries and the request's own headers may lie in
+that namespace: `buildEnv_ownVars`), every configured entry arrives, DOCUMENT_URI ++ PATH_INFO is the script path cut right after the first
 occurrence of the split string, and stdin is exactly the body.
 
 PARTIAL: it excludes HEAD and OPTIONS requests that carry a body — `Head`/`Options` pass no body
@@ -358,6 +360,123 @@ theorem C13_reads_model_verdict_ok (rid : Nat) (hid : rid < 65536) (ps : List Pi
   unfold readsVerdict
   rw [emptyDataRecords_framing rid hid tail ps _ h (framing_length rid ps tail)]
   simp
+
+/-! ### several requests in flight
+
+`Model/FCGIShared.lean`: the readers of one process over a common heap of record buffers, `w.buf`
+as a slice into the buffer `record.read` filled, and the source of those buffers (`Alloc`) as a
+parameter.  The code makes a new buffer for every record (`allocFresh`). -/
+
+/-- A record buffer belongs to one reader until its content is consumed — then the readers of a
+process are independent.  For EVERY allocator that never hands out a buffer in which some reader
+still has unread bytes (`Alloc.Safe`; `make` per record is the simplest one), every list of
+responder byte streams (conforming or not) and EVERY interleaving of the `Read` calls of the
+readers, with any buffer sizes: what reader `i` has delivered to its caller, the end of stream it
+has reported and what it has put into its error log are what reader `i` delivers alone, on its own
+connection, when called with the same buffer sizes. -/
+theorem C13_readers_independent (a : Alloc) (ha : a.Safe) (raws : List Bytes) (sched : Sched)
+    (sh' : Shared) (g' : Nat → Got)
+    (h : Shared.run a (Shared.init raws) (fun _ => {}) sched = .ok (sh', g'))
+    (i : Nat) (raw : Bytes) (hi : raws[i]? = some raw) :
+    ∃ s' r', SR.readUntil { inp := raw } {} (plensOf i sched) = .ok (s', g' i) ∧
+      sh'.readers i = some r' ∧ r'.stderr = s'.stderr :=
+  shared_run_reader a ha raws sched sh' g' h i raw hi
+
+/-- the allocator of the code is safe, so the theorem speaks about fcgiclient.go as it is -/
+theorem C13_fresh_buffer_per_record_safe : allocFresh.Safe := allocFresh_safe
+
+/-- and the shared system gets through every schedule the readers get through alone (no fault, no
+fuel problem arises from sharing) -/
+theorem C13_readers_independent_total (a : Alloc) (ha : a.Safe) (raws : List Bytes) (sched : Sched)
+    (hall : ∀ i raw, raws[i]? = some raw →
+      ∃ res, SR.readUntil { inp := raw } {} (plensOf i sched) = .ok res) :
+    ∃ sh' g', Shared.run a (Shared.init raws) (fun _ => {}) sched = .ok (sh', g') :=
+  shared_run_total a ha raws sched hall
+
+/-- Hence, with any number of responses in flight: for every framing of every responder's (stdout,
+stderr), every interleaving of the clients' `Read` calls with any buffer sizes, and every buffer
+size for reading the streams to their ends afterwards, each client ends up with exactly ITS
+responder's stdout, a clean end, and exactly ITS responder's stderr in its error log. -/
+theorem C13_overlap_exact_for_framings (a : Alloc) (ha : a.Safe) (fs : List Fr) (hfs : ∀ f ∈ fs, f.Ok)
+    (sched : Sched) (drain : Nat) (hd : 0 < drain) :
+    overlapRun a (fs.map Fr.bytes) sched drain = .ok (fs.map Fr.ending) :=
+  overlap_framings a ha fs hfs sched drain hd
+
+/-- c13.overlap (level r): the judge accepts the model's answer, for all framings and schedules -/
+theorem C13_overlap_model_verdict_ok (fs : List Fr) (hfs : ∀ f ∈ fs, f.Ok) (sched : Sched) (drain : Nat)
+    (hd : 0 < drain) :
+    ∃ es, overlapRun allocFresh (fs.map Fr.bytes) sched drain = .ok es ∧
+      overlapVerdict (fs.map fun f => ((outsOf f.ps).flatten, errsOf f.ps)) es = "ok" :=
+  ⟨_, overlap_framings allocFresh allocFresh_safe fs hfs sched drain hd, overlapVerdict_endings fs⟩
+
+/-- The hypothesis is needed.  An allocator that hands the first buffer out again while a reader
+still has unread bytes in it — a pool whose buffers go back at the end of every `Read` — is not
+safe, and under it two conforming responses read in turn get mixed up: client 0, whose responder
+sent `AAAA`, receives `AABB`; the judge calls it cross-talk. -/
+theorem C13_buffer_reused_before_consumed_crosstalk_witness :
+    let ra := framing 1 [⟨false, [0x41, 0x41, 0x41, 0x41], 0⟩, ⟨false, [], 0⟩] []
+    let rb := framing 1 [⟨false, [0x42, 0x42, 0x42, 0x42], 4⟩, ⟨false, [], 0⟩] []
+    overlapRun allocAlwaysFirst [ra, rb] [(0, 2), (1, 2), (0, 2)] 2 =
+      .ok [{ out := [0x41, 0x41, 0x42, 0x42], fin := some .eof, stderr := [] },
+           { out := [0x42, 0x42, 0x42, 0x42], fin := some .eof, stderr := [] }] ∧
+    overlapRun allocFresh [ra, rb] [(0, 2), (1, 2), (0, 2)] 2 =
+      .ok [{ out := [0x41, 0x41, 0x41, 0x41], fin := some .eof, stderr := [] },
+           { out := [0x42, 0x42, 0x42, 0x42], fin := some .eof, stderr := [] }] ∧
+    (overlapVerdict [([0x41, 0x41, 0x41, 0x41], []), ([0x42, 0x42, 0x42, 0x42], [])]
+      [{ out := [0x41, 0x41, 0x42, 0x42], fin := some .eof, stderr := [] },
+       { out := [0x42, 0x42, 0x42, 0x42], fin := some .eof, stderr := [] }]).startsWith "bad:cross-talk" = true := by
+  decide +kernel
+
+theorem C13_pool_released_per_read_not_safe : ¬ allocAlwaysFirst.Safe := by
+  intro h
+  exact h { heap := [[1]], readers := fun j => if j = 0 then some { inp := [], ref := { id := 0, off := 0, len := 1 } } else none }
+    0 rfl 0 _ rfl (by decide) rfl
+
+/-- two conforming framings satisfy the hypotheses of the theorems above -/
+example : ∀ f ∈ [({ rid := 1, ps := [⟨false, [0x41], 3⟩, ⟨true, [0x65], 0⟩, ⟨false, [], 1⟩], tail := [] } : Fr),
+                 { rid := 7, ps := [⟨false, [], 0⟩], tail := [9] }], f.Ok := by
+  intro f hf
+  simp only [List.mem_cons, List.not_mem_nil, or_false] at hf
+  rcases hf with rfl | rfl <;> refine ⟨by decide, ?_⟩ <;> intro p hp <;> simp at hp
+  · rcases hp with rfl | rfl | rfl <;> simp
+  · subst hp; simp
+
+/-! #### the request direction with several requests in flight
+
+`Do` shares nothing between requests: every `newWriter` makes its own `bufio.Writer`, `c.buf` and
+`c.h` belong to the client.  What each connection receives is therefore `clientWire` of its own
+request whatever the other requests do (stream c13.woverlap compares exactly that, after failed
+requests and under every kind of interleaving of the write phases), and the per-connection verdict
+accepts it. -/
+
+/-- every request on its own: its wire, and the reference responder's verdict on it -/
+theorem wires_each_ok (qs : List Asked)
+    (hq : ∀ q ∈ qs, q.id < 65536 ∧ ∀ p ∈ q.pairs, fits p = true) :
+    ∃ ws, qs.mapM (fun q => clientWire q.id q.pairs q.body) = .ok ws ∧ qs.length = ws.length ∧
+      ∀ v ∈ (qs.zip ws).map (fun x => wireVerdict x.1.id x.1.pairs x.1.body x.2), v = "ok" := by
+  induction qs with
+  | nil => exact ⟨[], rfl, rfl, by simp⟩
+  | cons q rest ih =>
+    obtain ⟨ws, hws, hl, hv⟩ := ih (fun x hx => hq x (List.mem_cons_of_mem _ hx))
+    obtain ⟨hid, hfit⟩ := hq q (List.mem_cons_self ..)
+    obtain ⟨w, hw, hwv⟩ := C13_wire_model_verdict_ok q.id hid q.pairs q.body hfit
+    refine ⟨w :: ws, ?_, by simp [hl], ?_⟩
+    · rw [List.mapM_cons, hw, hws]; rfl
+    · intro v hv'
+      simp only [List.zip_cons_cons, List.map_cons, List.mem_cons] at hv'
+      rcases hv' with rfl | hm
+      · exact hwv
+      · exact hv v hm
+
+/-- c13.woverlap: the judge accepts the model's answers, for every list of requests whose pairs fit -/
+theorem C13_overlap_wire_model_verdict_ok (qs : List Asked)
+    (hq : ∀ q ∈ qs, q.id < 65536 ∧ ∀ p ∈ q.pairs, fits p = true) :
+    ∃ ws, qs.mapM (fun q => clientWire q.id q.pairs q.body) = .ok ws ∧ overlapWireVerdict qs ws = "ok" := by
+  obtain ⟨ws, hws, hl, hv⟩ := wires_each_ok qs hq
+  refine ⟨ws, hws, ?_⟩
+  unfold overlapWireVerdict
+  simp only [hl, ne_eq, not_true_eq_false, if_false]
+  exact firstBad_all_ok _ _ 0 hv
 
 /-! ### regenerated constants -/
 
